@@ -283,7 +283,18 @@ fn u08_3_chain_reinsert_position() {
     kani::assume(sorted_desc(&v));
     let p: i32 = kani::any();
     let pos = blk_chain_reinsert_pos(&v, p);
-    chain_insert_contract(pos, &v, p);
+    // re-prioritising: the property fixes the tie rule for ADDED archives ("earliest added wins ties"); whether a
+    // re-prioritised archive counts as re-added is not stated, so only "the chain stays descending" is required here
+    assert!(pos <= v.len(), "insertion index in range");
+    let mut i = 0;
+    while i < v.len() {
+        if i < pos {
+            assert!(v[i].priority >= p, "everything before the moved archive has priority >= it");
+        } else {
+            assert!(v[i].priority <= p, "everything after the moved archive has priority <= it");
+        }
+        i += 1;
+    }
 }
 
 // ------------------------------------------------------------------------------------ U08.2 / U05.6 (E11 blocks of apply_bsd0_patch)
